@@ -146,6 +146,7 @@ class Sim:
         self.evno = 0
         self.config: dict[str, Any] = {}
         self.nontrivial = False
+        self.thorough = os.environ.get("VERIF_TIER_ACTIVE", "quick") == "thorough"
         self.violations: list[dict[str, Any]] = []
         self._fatal: Violation | None = None
 
@@ -217,6 +218,10 @@ class Sim:
     @property
     def now_us(self) -> int:
         return self.loop.now_us
+
+    def scale(self, quick: int, thorough: int) -> int:
+        """Size knob: the thorough tier explores longer histories / more actors, not only more seeds."""
+        return thorough if self.thorough else quick
 
     def stall(self, us: int) -> None:
         """Block the loop for `us` µs (GC pause / blocking call / CPU starvation)."""
